@@ -101,7 +101,7 @@ func main() {
 	r := ev.Start("C09")
 	defer r.RecoverMain()
 	defer world.Cleanup()
-	r.SetBudget(ev.Pick(r, 240*time.Second, 60*time.Minute))
+	r.SetBudget(ev.Pick(r, 480*time.Second, 60*time.Minute))
 	r.Assume("oracle: when the loop has been idle for 3 iterations the newest own snapshot contains, for every key the application wrote, a version at least as new as the last commit; the forced periodic snapshot is disabled so it cannot mask a lost change; Store may fail up to 2 times in a row (retry budget 3)",
 		"steady state: initial content was written and mirrored by a previous complete sync step; all remote versions are older than anything the application writes, so any change of an application-written key is a violation",
 		"goroutine scheduling follows a fixed policy (background downloads run to completion before the loop continues); the explored choices are the environment's answers: application commits at every loop hook, straddling application transactions, remote snapshot arrival")
